@@ -1452,7 +1452,7 @@ func ruleCONC5(w *World) []Ob {
 	// a writer wrapped so that only single Write calls are serialised defeats per-root atomicity:
 	// any type in the module implementing io.Writer whose Write takes a lock is reported
 	for _, fn := range libFuncs(p) {
-		if fn.Name() != "Write" || fn.Signature.Recv() == nil || fn.Signature.Params().Len() != 1 {
+		if fname(fn) != "Write" || fn.Signature.Recv() == nil || fn.Signature.Params().Len() != 1 {
 			continue
 		}
 		locks := false
